@@ -1,15 +1,16 @@
 CHECK = dict(
     level="exploration",
     level_text="Generated-input search over histories of clients: rapid draws sequences of (client address, ECS option variant, question) through the real access/rate-limit middleware composed with the real ECS cache in front of a recording upstream that tags scoped answers with the subnet it received. Oracles: membership of every upstream subnet in the GeoIP model's set for that client (never overlapping the client's address or option), /0 for declined clients, warm-vs-fresh differential, exact response-ECS echo, FORMERR for malformed options.",
-    level_note="Model GeoIP (agdtest.GeoIP) instead of a real MMDB; upstream is EDNS-conforming and scopes answers only for names of the scoped class; FakeECSFQDNs (documented exception) are outside the generated names; miekg/dns codec trusted.",
+    level_note="Model GeoIP (agdtest.GeoIP) plus geoip.File on the test MMDBs; upstream is EDNS-conforming and scopes answers only for names of the scoped class; FakeECSFQDNs (documented exception) are outside the generated names; miekg/dns codec trusted.",
     technique="property-based testing (rapid): stateful client histories vs GeoIP-model membership oracle, fresh-twin differential and response-ECS predicate",
     assumptions=[
-        "model GeoIP database; real test MMDB files are not exercised",
+        "the main run uses a model GeoIP database; a second run uses geoip.File on the repository's test MMDB files (few networks), where only membership in the database's own answers is judged",
         "clock not advanced: TTL 300 answers never expire within a case (expiry is C04's subject)",
     ],
     units=[
         dict(name="dnssvc", dir="internal/dnssvc", src="C05/dnssvc", runs=[
             dict(name="history", run="^TestVerifC05History$", quick=2500, thorough=400000, shards_thorough=12),
+            dict(name="realgeoip", run="^TestVerifC05RealGeoIP$", quick=1000, thorough=100000, shards_thorough=6),
         ]),
     ],
 )
